@@ -19,16 +19,19 @@
                  literal run sleb(-n) v0 .. v(n-1)
                  null run    sleb(0) uleb(count)
 
-   Partial operations of the Rust, as [Panic] (debug build, overflow checks on):
-     decoder.rs:252  `(-n) as usize` for a literal header n = i64::MIN (negate overflow)
-     load.rs:132/144/151 `slab.len += count`  (usize overflow)
-     column.rs:1940  `.sum()` of the slab lengths (usize overflow)
+   Untrusted counts (as of /repo a623e02f7): a literal header n = i64::MIN is BadFormat
+   (`n.checked_neg()`); `slab.len` saturates at usize::MAX in CutState::track; finalize
+   folds the slab lengths with checked_add and rejects a total that overflows or equals
+   usize::MAX (so a saturated slab is rejected), and ColumnLoadIter::finalize_with sums
+   them checked once more.  No partial operation is left on this path: the loader returns
+   Ok or Err.
    Not modelled: `tail.bytes` (u32 byte counters of the last segment: inputs below 4 GiB).
 
    The loader is factored as  parse all segments (stopping at the first undecodable one)
    then  fold validation + counting over them  then  the end-of-input status.  This is the
    Rust order of events: for every segment  parse, validate, count;  so the first failing
-   event decides, and the factored form returns exactly that event.
+   event decides, and the factored form returns exactly that event (the order matters for
+   the delta loader, Hexane/Delta.v, which still has a partial operation).
 
    A column value is represented by its run list [(count, Some v | None)] because counts
    up to 2^64 - 1 can be declared in a dozen bytes; [expand] gives the value list. *)
@@ -51,7 +54,7 @@ Section Rle.
   | RRun (n : N) (v : V)     (* RleSegment::Run *)
   | RNull (n : N).           (* RleSegment::Null *)
 
-  Inductive term := TEnd | TErr | TPanic.
+  Inductive term := TEnd | TErr.
 
   (* RleDecoder::try_next_segment, iterated; [lit] = `remaining` while the state is
      Literal (0 otherwise).  One unit of fuel per segment; every segment consumes at
@@ -78,7 +81,7 @@ Section Rle.
               | Some (v, r') => let (ss, t) := raw_parse fuel' 0 r' in (RRun (Z.to_N n) v :: ss, t)
               end
             else if (n <? 0)%Z then
-              if (n =? i64_min)%Z then ([], TPanic)
+              if (n =? i64_min)%Z then ([], TErr)          (* checked_neg *)
               else let (ss, t) := raw_parse fuel' (Z.to_N (- n)) r in (RHead (Z.to_N (- n)) :: ss, t)
             else
               match hleb_u r with
@@ -126,13 +129,11 @@ Section Rle.
 
   (* CutState::track for a value-bearing segment, then the cut test *)
   Definition count_seg (st : cst) (prev : pseg) (plit : option V) (n : N) (x : option V) : res cst :=
-    let len := c_len st + n in
-    if pow64 <=? len then Panic
-    else
-      let segs := c_segs st + 1 in
-      if segs =? rle_target
-      then Ok (mk_cst prev plit 0 0 (len :: c_done st) ((n, x) :: c_out st))
-      else Ok (mk_cst prev plit len segs (c_done st) ((n, x) :: c_out st)).
+    let len := N.min (c_len st + n) u64_max in          (* saturating_add *)
+    let segs := c_segs st + 1 in
+    if segs =? rle_target
+    then Ok (mk_cst prev plit 0 0 (len :: c_done st) ((n, x) :: c_out st))
+    else Ok (mk_cst prev plit len segs (c_done st) ((n, x) :: c_out st)).
 
   (* one iteration of the `while let Some(segment)` loop of RleLoadIter::finalize.
      (After a LitHead the cut test `segments == target` cannot fire: segments < target
@@ -154,10 +155,11 @@ Section Rle.
 
   Definition sumN (l : list N) : N := fold_right N.add 0 l.
 
-  (* flush the last slab; total_len = sum of slab lens *)
+  (* flush the last slab; the checked fold over the slab lens fails when a partial total
+     overflows or equals usize::MAX: the partial totals grow, so that is  total >= 2^64 - 1 *)
   Definition finish (st : cst) : res (list (N * option V)) :=
     let lens := if 0 <? c_segs st then c_len st :: c_done st else c_done st in
-    if pow64 <=? sumN lens then Panic else Ok (rev (c_out st)).
+    if u64_max <=? sumN lens then Err else Ok (rev (c_out st)).
 
   Definition rle_load_segs (p : list rseg * term) : res (list (N * option V)) :=
     let (ss, t) := p in
@@ -165,7 +167,6 @@ Section Rle.
     match t with
     | TEnd => finish st
     | TErr => Err
-    | TPanic => Panic
     end.
 
   (* Column::<T>::load, as the run list of the loaded column *)
@@ -230,13 +231,8 @@ Section Rle.
   (* Column::<T>::save of a column holding the values [l] *)
   Definition rle_save (l : list (option V)) : bytes := rle_save_runs (group l).
 
-  (* what the theorems about panics talk about *)
   Definition seg_items (s : rseg) : N :=
     match s with RHead _ => 0 | RLit _ => 1 | RRun n _ => n | RNull n => n end.
-  Definition declared_items (b : bytes) : N :=
-    sumN (map seg_items (fst (raw_parse (S (length b)) 0 b))).
-  Definition has_min_header (b : bytes) : bool :=
-    match snd (raw_parse (S (length b)) 0 b) with TPanic => true | _ => false end.
 End Rle.
 
 Arguments RHead {V}. Arguments RLit {V}. Arguments RRun {V}. Arguments RNull {V}.
